@@ -1,4 +1,6 @@
 import EdzedModel.Basic.Val
 import EdzedModel.Counter
 import EdzedModel.Drv.Counter
+import EdzedModel.Drv.Simulate
 import EdzedModel.Gen.Constants
+import EdzedModel.Simulate
